@@ -6,6 +6,7 @@ import (
 	"go/constant"
 	"go/token"
 	"go/types"
+	"sort"
 	"strings"
 
 	"golang.org/x/tools/go/ssa"
@@ -105,6 +106,15 @@ func (p *Program) searchShape() *searchShape {
 		}
 	})
 	return sh
+}
+
+// constIntNamed returns the value of an integer constant of the larking package.
+func (p *Program) constIntNamed(name string) (int64, bool) {
+	c, ok := p.Lark.Types.Scope().Lookup(name).(*types.Const)
+	if !ok {
+		return 0, false
+	}
+	return constant.Int64Val(constant.ToInt(c.Val()))
 }
 
 // indexPhi: the loop phi behind a range index (i or i+1 form).
@@ -591,8 +601,13 @@ func ruleLiteralCompare(r *Run) {
 			if !rejects(ifi, mismatch) {
 				return
 			}
-			if _, isC := constInt(other); isC {
-				kindLit = true
+			if k, isC := constInt(other); isC {
+				// inside `case tokenSlash:` comparing with the constant is the same test as comparing with tok.typ
+				if sl, ok := p.constIntNamed("tokenSlash"); ok && k == sl {
+					kindSlash = true
+				} else {
+					kindLit = true
+				}
 			} else if isTmplTok(other, typF) {
 				kindSlash = true
 			}
@@ -838,79 +853,284 @@ func ruleKeyAgree(r *Run) {
 		"search does not look the literal edge up by toks[0].val + toks[1].val: reader's and writer's key disagree, literal segments stop matching")
 }
 
+// guardedLeaf is a value a variable may hold together with the branch facts under which it holds it.
+type guardedLeaf struct {
+	v     ssa.Value
+	facts []guardFact
+}
+
+// guardedLeaves walks v back through phis, local cells and transparent helpers'
+// returns, collecting for every leaf the branch conditions of the path taken.
+func (p *Program) guardedLeaves(v ssa.Value) []guardedLeaf {
+	var out []guardedLeaf
+	type key struct {
+		v ssa.Value
+		n int
+	}
+	seen := map[key]bool{}
+	var walk func(v ssa.Value, facts []guardFact, depth int)
+	walk = func(v ssa.Value, facts []guardFact, depth int) {
+		if v == nil || depth > 12 || seen[key{v, len(facts)}] {
+			return
+		}
+		seen[key{v, len(facts)}] = true
+		with := func(extra []guardFact) []guardFact {
+			return append(append([]guardFact{}, facts...), extra...)
+		}
+		switch x := v.(type) {
+		case *ssa.Phi:
+			for i, e := range x.Edges {
+				walk(e, with(edgeFacts(x.Block().Preds[i], x.Block())), depth+1)
+			}
+			return
+		case *ssa.Extract:
+			if c, ok := x.Tuple.(*ssa.Call); ok {
+				if callee := c.Call.StaticCallee(); callee != nil && !c.Call.IsInvoke() && p.isTransparent(callee) {
+					errChecked := callErrChecked(c)
+					eachInstr(callee, func(in ssa.Instruction) {
+						if rt, ok := in.(*ssa.Return); ok && x.Index < len(rt.Results) {
+							// `return zero, err`: the caller tests the error and does not use the value
+							if errChecked && returnsNonNilError(rt) {
+								return
+							}
+							walk(rt.Results[x.Index], with(guardsOf(rt.Block())), depth+1)
+						}
+					})
+					return
+				}
+			}
+		case *ssa.Call:
+			if callee := x.Call.StaticCallee(); callee != nil && !x.Call.IsInvoke() && p.isTransparent(callee) && callee.Signature.Results().Len() == 1 {
+				eachInstr(callee, func(in ssa.Instruction) {
+					if rt, ok := in.(*ssa.Return); ok && len(rt.Results) == 1 {
+						walk(rt.Results[0], with(guardsOf(rt.Block())), depth+1)
+					}
+				})
+				return
+			}
+		case *ssa.UnOp:
+			if x.Op == token.MUL {
+				if al, ok := p.cellRoot(x.X).(*ssa.Alloc); ok {
+					if sts := p.reachingStores(al, x); len(sts) > 0 {
+						for _, st := range sts {
+							walk(st.Val, with(guardsOf(st.Block())), depth+1)
+						}
+						return
+					}
+				}
+			}
+		case *ssa.FreeVar:
+			if b := p.freeVarBinding(x); b != nil {
+				walk(b, facts, depth+1)
+				return
+			}
+		}
+		out = append(out, guardedLeaf{v, facts})
+	}
+	walk(v, nil, 0)
+	return out
+}
+
+// callErrChecked: the call's last result is an error that the caller compares with nil in a branch condition.
+func callErrChecked(c *ssa.Call) bool {
+	res := c.Call.Signature().Results()
+	if res.Len() < 2 || !isErrorType(res.At(res.Len()-1).Type()) || c.Referrers() == nil {
+		return false
+	}
+	for _, ref := range *c.Referrers() {
+		ex, ok := ref.(*ssa.Extract)
+		if !ok || ex.Index != res.Len()-1 || ex.Referrers() == nil {
+			continue
+		}
+		for _, r2 := range *ex.Referrers() {
+			if bo, ok := r2.(*ssa.BinOp); ok && (bo.Op == token.NEQ || bo.Op == token.EQL) && (isNilConst(bo.X) || isNilConst(bo.Y)) && bo.Referrers() != nil {
+				for _, r3 := range *bo.Referrers() {
+					if _, ok := r3.(*ssa.If); ok {
+						return true
+					}
+				}
+			}
+		}
+	}
+	return false
+}
+
+// returnsNonNilError: the last result of the return is an error value that is certainly not nil (a fresh error).
+func returnsNonNilError(rt *ssa.Return) bool {
+	if len(rt.Results) < 2 {
+		return false
+	}
+	last := rt.Results[len(rt.Results)-1]
+	if !isErrorType(last.Type()) {
+		return false
+	}
+	switch x := last.(type) {
+	case *ssa.Call:
+		n := calleeName(x)
+		return n == "fmt.Errorf" || n == "errors.New" || strings.HasSuffix(n, "status.Errorf") || strings.HasSuffix(n, "status.Error")
+	case *ssa.MakeInterface:
+		return true
+	}
+	return false
+}
+
+func isErrorType(t types.Type) bool {
+	return types.Identical(t, types.Universe.Lookup("error").Type())
+}
+
+// patternKindOf: the HttpRule_<Kind> the facts select (comma-ok type assertion of the pattern taken on its true edge).
+func patternKindOf(facts []guardFact) (string, *ssa.TypeAssert) {
+	for _, g := range facts {
+		ex, ok := g.Cond.(*ssa.Extract)
+		if !ok || ex.Index != 1 || !g.True {
+			continue
+		}
+		ta, ok := ex.Tuple.(*ssa.TypeAssert)
+		if !ok {
+			continue
+		}
+		if nm := namedOf(ta.AssertedType); nm != nil && strings.HasPrefix(nm.Obj().Name(), "HttpRule_") {
+			return strings.TrimPrefix(nm.Obj().Name(), "HttpRule_"), ta
+		}
+	}
+	return "", nil
+}
+
+// PATTERN-VERB: for every HttpRule pattern kind, the key under which addRule registers the method in path.methods
+// is the matching HTTP verb and the template that is lexed is that pattern's own string. Decided on values (the key
+// of the map update, the lexer's input) and the type-switch facts under which they are chosen, so local names, the
+// order of the cases and an extracted helper do not matter.
 func rulePatternVerb(r *Run) {
 	p := r.P
-	fd := p.FuncDecl("path", "addRule")
-	if fd == nil {
+	ar := p.Method("path", "addRule")
+	if ar == nil {
 		r.missing("method (*path).addRule")
 		return
 	}
-	info := p.Lark.TypesInfo
-	var ts *ast.TypeSwitchStmt
-	ast.Inspect(fd.Body, func(n ast.Node) bool {
-		if t, ok := n.(*ast.TypeSwitchStmt); ok && ts == nil {
-			ts = t
+	methodT := p.NamedType("method")
+	inputF := p.StructField("lexer", "input")
+	var keyVal, tmplVal ssa.Value
+	var keyPos, tmplPos token.Pos
+	p.eachInstrRegion(ar, func(_ *ssa.Function, in ssa.Instruction) {
+		switch x := in.(type) {
+		case *ssa.MapUpdate:
+			if mt, ok := x.Map.Type().Underlying().(*types.Map); ok && namedOf(mt.Elem()) == methodT && methodT != nil {
+				if b, ok := mt.Key().Underlying().(*types.Basic); ok && b.Kind() == types.String {
+					keyVal, keyPos = x.Key, x.Pos()
+				}
+			}
+		case *ssa.Store:
+			if fa, ok := x.Addr.(*ssa.FieldAddr); ok && inputF != nil && fieldOfAddr(fa) == inputF {
+				tmplVal, tmplPos = x.Val, x.Pos()
+			}
 		}
-		return true
 	})
-	if ts == nil {
-		r.missing("type switch over rule.Pattern in addRule")
+	if keyVal == nil {
+		r.missing("registration of the method in path.methods (map update) in addRule")
+		return
+	}
+	if tmplVal == nil {
+		r.missing("store of the template into lexer.input in addRule")
 		return
 	}
 	want := map[string]string{"Get": "GET", "Put": "PUT", "Post": "POST", "Delete": "DELETE", "Patch": "PATCH"}
-	seen := map[string]bool{}
-	for _, c := range ts.Body.List {
-		cc := c.(*ast.CaseClause)
-		for _, te := range cc.List {
-			t := info.TypeOf(te)
-			nm := namedOf(t)
-			if nm == nil || !strings.HasPrefix(nm.Obj().Name(), "HttpRule_") {
-				continue
+	verbs := map[string][]guardedLeaf{}
+	tmpls := map[string][]guardedLeaf{}
+	var stray []string
+	for _, l := range p.guardedLeaves(keyVal) {
+		k, _ := patternKindOf(l.facts)
+		if k == "" {
+			stray = append(stray, "verb "+describeValue(l.v))
+			continue
+		}
+		verbs[k] = append(verbs[k], l)
+	}
+	for _, l := range p.guardedLeaves(tmplVal) {
+		k, _ := patternKindOf(l.facts)
+		if k == "" {
+			stray = append(stray, "template "+describeValue(l.v))
+			continue
+		}
+		tmpls[k] = append(tmpls[k], l)
+	}
+	// template leaf: load of field <name> (optionally .Custom.<name>) of the value asserted to that pattern type
+	fieldLoadOfAssert := func(l guardedLeaf, names ...string) bool {
+		_, ta := patternKindOf(l.facts)
+		cur := l.v
+		for i := len(names) - 1; i >= 0; i-- {
+			u, ok := cur.(*ssa.UnOp)
+			if !ok || u.Op != token.MUL {
+				return false
 			}
-			kind := strings.TrimPrefix(nm.Obj().Name(), "HttpRule_")
-			seen[kind] = true
-			key := "(*path).addRule/pattern:" + kind
-			// assignments in the clause: verb = <const>, tmpl = v.<Field>
-			var verbVal constant.Value
-			verbExpr, tmplSel := "", ""
-			for _, st := range cc.Body {
-				as, ok := st.(*ast.AssignStmt)
-				if !ok || len(as.Lhs) != 1 || len(as.Rhs) != 1 {
-					continue
-				}
-				id, ok := as.Lhs[0].(*ast.Ident)
-				if !ok {
-					continue
-				}
-				switch id.Name {
-				case "verb":
-					verbVal = constOf(p.Lark, as.Rhs[0])
-					verbExpr = types.ExprString(as.Rhs[0])
-				case "tmpl":
-					tmplSel = types.ExprString(as.Rhs[0])
-				}
+			fa, ok := u.X.(*ssa.FieldAddr)
+			if !ok || fieldOfAddr(fa).Name() != names[i] {
+				return false
 			}
-			if w, ok := want[kind]; ok {
-				good := verbVal != nil && verbVal.Kind() == constant.String && constant.StringVal(verbVal) == w && strings.HasSuffix(tmplSel, "."+kind)
-				got := verbExpr
-				if verbVal != nil {
-					got = verbVal.ExactString()
-				}
-				r.check(good, key, cc.Pos(), fmt.Sprintf("verb %q, template from .%s", w, kind),
-					fmt.Sprintf("pattern %s is registered under verb %s with template %s; it must be %q with the template of field %s", kind, got, tmplSel, w, kind))
-			} else if kind == "Custom" {
-				good := strings.Contains(verbExpr, "Custom.Kind") && strings.Contains(verbExpr, "ToUpper") && strings.HasSuffix(tmplSel, "Custom.Path")
-				r.check(good, key, cc.Pos(), "verb = upper-cased custom kind, template = custom path", "custom pattern is not registered under strings.ToUpper(Custom.Kind) with Custom.Path")
+			cur = fa.X
+		}
+		base := cur
+		for _, o := range p.origins(base, originOpts{local: true}) {
+			if ex, ok := o.(*ssa.Extract); ok && ex.Tuple == ssa.Value(ta) && ex.Index == 0 {
+				return true
 			}
 		}
+		return false
 	}
-	for k := range want {
-		if !seen[k] {
-			r.bad("(*path).addRule/pattern:"+k, ts.Pos(), "no case for HttpRule_%s: rules with this verb are rejected as unsupported", k)
+	kinds := []string{"Get", "Put", "Post", "Delete", "Patch"}
+	for _, kind := range kinds {
+		key := "(*path).addRule/pattern:" + kind
+		vs, ts := verbs[kind], tmpls[kind]
+		if len(vs) == 0 || len(ts) == 0 {
+			r.bad(key, keyPos, "no case for HttpRule_%s reaches the registration: rules with this verb are rejected as unsupported", kind)
+			continue
+		}
+		good, got := true, ""
+		for _, l := range vs {
+			if sv, ok := constString(l.v); !ok || sv != want[kind] {
+				good = false
+				got = "verb " + describeValue(l.v)
+			}
+		}
+		for _, l := range ts {
+			if !fieldLoadOfAssert(l, kind) {
+				good = false
+				got += " template " + describeValue(l.v)
+			}
+		}
+		r.check(good, key, keyPos, fmt.Sprintf("verb %q, template from .%s", want[kind], kind),
+			fmt.Sprintf("pattern %s is registered with%s; it must be verb %q with the template of field %s", kind, got, want[kind], kind))
+	}
+	// custom: upper-cased kind, custom path
+	{
+		key := "(*path).addRule/pattern:Custom"
+		vs, ts := verbs["Custom"], tmpls["Custom"]
+		if len(vs) == 0 || len(ts) == 0 {
+			r.bad(key, keyPos, "no case for HttpRule_Custom reaches the registration")
+		} else {
+			good := true
+			for _, l := range vs {
+				c, ok := l.v.(*ssa.Call)
+				if !ok || calleeName(c) != "strings.ToUpper" {
+					good = false
+					continue
+				}
+				arg := guardedLeaf{c.Call.Args[0], l.facts}
+				if !fieldLoadOfAssert(arg, "Custom", "Kind") {
+					good = false
+				}
+			}
+			for _, l := range ts {
+				if !fieldLoadOfAssert(l, "Custom", "Path") {
+					good = false
+				}
+			}
+			r.check(good, key, keyPos, "verb = upper-cased custom kind, template = custom path", "custom pattern is not registered under strings.ToUpper(Custom.Kind) with Custom.Path")
 		}
 	}
-	if !seen["Custom"] {
-		r.bad("(*path).addRule/pattern:Custom", ts.Pos(), "no case for HttpRule_Custom")
+	_ = tmplPos
+	if len(stray) > 0 {
+		sort.Strings(stray)
+		r.bad("(*path).addRule/pattern:undetermined", keyPos, "a registration verb or lexed template is not determined by the rule's pattern kind: %s", strings.Join(stray, "; "))
 	}
 }
 
@@ -924,7 +1144,7 @@ func ruleVerbKey(r *Run) {
 	methodsF := p.StructField("path", "methods")
 	verbPar := sh.fn.Params[2]
 	good, n := true, 0
-	eachInstr(sh.fn, func(in ssa.Instruction) {
+	p.eachInstrRegion(sh.fn, func(_ *ssa.Function, in ssa.Instruction) {
 		lk, ok := in.(*ssa.Lookup)
 		if !ok {
 			return
@@ -932,7 +1152,7 @@ func ruleVerbKey(r *Run) {
 		for _, o := range p.origins(lk.X, originOpts{}) {
 			if loadsField(o, methodsF) {
 				n++
-				if lk.Index != ssa.Value(verbPar) {
+				if !p.onlyFrom(lk.Index, verbPar) {
 					good = false
 				}
 			}
@@ -1017,7 +1237,7 @@ func ruleLeafExhausted(r *Run) {
 	toks := sh.fn.Params[1]
 	n := 0
 	good := true
-	eachInstr(sh.fn, func(in ssa.Instruction) {
+	p.eachInstrRegion(sh.fn, func(_ *ssa.Function, in ssa.Instruction) {
 		isLeafRead := false
 		switch x := in.(type) {
 		case *ssa.Lookup:
@@ -1035,27 +1255,27 @@ func ruleLeafExhausted(r *Run) {
 			return
 		}
 		n++
-		ok := false
-		for _, g := range guardsOf(in.Block()) {
+		ok := p.guardedInEveryContext(in.Block(), func(g guardFact) bool {
 			bo, isB := g.Cond.(*ssa.BinOp)
 			if !isB {
-				continue
+				return false
 			}
 			lc, isL := bo.X.(*ssa.Call)
-			if !isL || calleeName(lc) != "builtin.len" || lc.Call.Args[0] != ssa.Value(toks) {
-				continue
+			if !isL || calleeName(lc) != "builtin.len" || !p.onlyFrom(lc.Call.Args[0], toks) {
+				return false
 			}
 			k, isC := constInt(bo.Y)
 			if !isC {
-				continue
+				return false
 			}
 			// len(toks) <= 1  (or < 2, == 1, == 0 …)
 			switch {
 			case g.True && bo.Op == token.LEQ && k <= 1, g.True && bo.Op == token.LSS && k <= 2, g.True && bo.Op == token.EQL && k <= 1,
 				!g.True && bo.Op == token.GTR && k <= 1, !g.True && bo.Op == token.GEQ && k <= 2:
-				ok = true
+				return true
 			}
-		}
+			return false
+		})
 		if !ok {
 			good = false
 		}
